@@ -131,7 +131,7 @@ def is_empty_selection(obs):
     return bool(obs["exc"].startswith("IndexError") and "P" in cap and cap["P"].max() > 1.0 - obs["alpha"])
 
 
-def judge(ctx, vc, cases, label, base_id=0):
+def judge(ctx, vc, cases, label, base_id=0, key_suffix=""):
     recs, kept = [], []
     empty = 0
     for i, case in enumerate(cases):
@@ -158,7 +158,7 @@ def judge(ctx, vc, cases, label, base_id=0):
         nwarn += 1 if rec["warned"] else 0
         ctx.case(H.case_key(case), nontrivial)
         for clause in failing.get(rec["id"], []):
-            ctx.violation(clause, H.case_key(case),
+            ctx.violation(clause, H.case_key(case) + key_suffix,
                           f"shape={info['shape']} cells_in={info['n_in']} warned={info['warned']} "
                           f"sumP={info['sumP']} exc={rec['exc']!r}", replay=case)
     ctx.log(f"{label}: {len(recs)} contours judged, {sum(1 for r in recs if r['id'] in failing)} rejected, "
@@ -318,7 +318,9 @@ def run(ctx):
         "(exact ties cum = limit occur), also with the limit moved by +-2^-30 / +-2^-21 (just above / below an "
         "attainable sum).  Near-limit contours: for 4 (quick) / 16 (thorough) small grids the total T of the grid is "
         "measured and alpha := 1 - T*(1 +- eps), eps = 1e-12, 1e-9, 1e-7, 1e-5, 1e-3 (warning required on one side, "
-        "forbidden on the other).  distinct = distinct (model structure+parameters, alpha, limits, deltas); non-trivial = no "
+        "forbidden on the other).  Hidden state: 8 (quick) / 40 (thorough) pairs of look-alike models - same structure, "
+        "families, fixed parameters, dependence functions as parameter-less closures with different constants - run "
+        "A, B, A on one grid, and the cheap ordinary contours a second time in reverse order.  distinct = distinct (model structure+parameters, alpha, limits, deltas); non-trivial = no "
         "exception, not on the warn path, at least 4 cells enclosed and at least one cell excluded")
     ctx.trusted = [
         "TLC 1.8 evaluating spec/HDCOps.tla two-limb arithmetic and spec/Trace_C02.tla clauses",
@@ -353,6 +355,14 @@ def run(ctx):
     # V
     sel_recs = judge_selection(ctx, vc, sel_cases, "selection domain")
     kept = judge(ctx, vc, cases, "contours")
+    # hidden state between contours: look-alike models back to back on one grid (A, B, A), and the
+    # cheap ordinary contours a second time in reverse order
+    twins = H.twin_cases(vc, np.random.default_rng(ctx.seed * 31 + 5), cfgs, ctx.pick(8, 40))
+    kept_tw = judge(ctx, vc, twins, "look-alike model pairs (A, B, A) on one grid", base_id=200000)
+    ctx.notes["twin_contours"] = len(kept_tw)
+    again = [c for c, r, i in reversed(kept) if not r["exc"] and i["n"] <= 6000][: ctx.pick(40, 300)]
+    judge(ctx, vc, again, "second evaluation in reverse order", base_id=250000, key_suffix=" second-evaluation")
+    ctx.notes["second_evaluations"] = len(again)
     near = near_limit_cases(ctx, vc, cfgs)
     kept_near = judge(ctx, vc, near, "grids with total just below / above 1 - alpha", base_id=100000)
     ctx.notes["near_limit_contours"] = len(kept_near)
@@ -373,4 +383,6 @@ def replay(ctx, case):
     if c["kind"] == "sel":
         judge_selection(ctx, vc, [c], "replay")
     else:
+        for pre in c.get("prelude", []):      # the contours that were evaluated before it in the same process
+            H.observe_contour(vc, pre, want_pref=False, want_resort=False)
         judge(ctx, vc, [c], "replay")
